@@ -29,6 +29,21 @@ func nodePaths(p *core.Pkg) []core.Path {
 		if a.Kind == "unkeyed" {
 			continue
 		}
+		bounds := map[int]bool{}
+		for _, n := range p.AtomBounds(a) {
+			bounds[n] = true
+		}
+		if p.Compressed {
+			// every other prefix of the data path ends at a container that path compression removed from the Go
+			// structs (".../config"): ygot may refuse such a path, but a delete that SUCCEEDS must remove the subtree
+			for n := 1; n < len(a.Path); n++ {
+				if !bounds[n] && len(a.Path[n-1].Keys) == 0 {
+					pre := a.Path[:n].Clone()
+					softTarget.Store(p.Name+"|"+pre.String(), true)
+					add(pre)
+				}
+			}
+		}
 		for _, n := range p.AtomBounds(a) {
 			if n > len(a.Path) {
 				continue
@@ -55,6 +70,9 @@ func nodePaths(p *core.Pkg) []core.Path {
 
 // listArity maps "pkg|/names/of/a/list" to its number of keys (filled by nodePaths).
 var listArity sync.Map
+
+// softTarget marks "pkg|path" of paths that end at a container removed by path compression.
+var softTarget sync.Map
 
 func namesOf(q core.Path) string {
 	s := ""
@@ -180,6 +198,12 @@ func c12Check(p *core.Pkg, atoms []*core.Atom, q core.Path) (string, string) {
 		cls = "present"
 	}
 	if derr != nil {
+		if _, soft := softTarget.Load(p.Name + "|" + q.String()); soft && hadData {
+			if got.Canon() != m.Canon() {
+				return "error-but-changed:", core.DiffCanon(m.Canon(), got.Canon())
+			}
+			return "", "error-on-compressed-out-container(not addressable in compressed structs)"
+		}
 		if hadData {
 			return "error-on-present-data:", fmt.Sprintf("DeleteNode(%s) returned %v although the path holds data", q, derr)
 		}
